@@ -23,6 +23,7 @@ groups = {
     "root": {"pkg": ".", "hdir": "harness/root", "tags": ""},
     "s3": {"pkg": "s3", "hdir": "harness/s3", "tags": ""},
     "internal": {"pkg": "internal", "hdir": "harness/internal", "tags": ""},
+    "file": {"pkg": "file", "hdir": "harness/file", "tags": ""},
 }
 
 props = {}
@@ -73,6 +74,7 @@ props["C15"] = {
         run("root", "VxC08Time", {"N": 3, "M": 5}, {"N": 4, "M": 6}),
         run("root", "VxC15Monotone", {"N": 3, "M": 4}, {"N": 4, "M": 4}),
         run("root", "VxC15Exact", {"N": 4}, {"N": 6}),
+        run("file", "VxC15FileTimestamp", {}, {}, note="file backend: listed CreatedAt = LTX header timestamp"),
     ],
     "assumptions": [
         "replication instants are non-decreasing in TXID (monotone clock)",
@@ -146,6 +148,10 @@ claims = {
             "The checkpoint itself is the E-CKPT contract. Known finding H5b (emergency threshold of one page) is reported as such.", "DESIGN.md 5 (C13), 7 (H5)"),
     "C14": ("The real DB.init, ensureWALExists, bumpLitestreamSeq, acquireReadLock, releaseReadLock, rollback, checkpointWithExecutor (all four modes), execCheckpoint and Close run over symsql with every SQL call allowed to fail and the WAL either restarted or not: every statement sent is in the whitelist (journal_mode=wal, the two CREATE TABLE IF NOT EXISTS _litestream_*, the _litestream_seq upsert, the read-lock SELECT, page_size, the _litestream_lock insert, wal_checkpoint in the four modes); no transaction is ever committed; every transaction that executed the lock insert is rolled back before the function returns; the only transaction left open is the read lock; the database and WAL files are never written through the file API; the checkpoint mutex is released; Close releases the read lock and both handles on every path.",
             "SQLite's own handling of these statements is outside the claim.", "DESIGN.md 5 (C14)"),
+    "C11": ("The publish tails of the real DB.sync, file.ReplicaClient.WriteLTXFile, WriteTXIDFile, checkDatabaseBehindReplica and Replica.Restore, and the delete path Compactor.Compact + EnforceL0Retention through the real file backend, run over a file-system model with ghost dirty bits and a fault decision at every call: a file is never renamed to a final name while it has unflushed writes or an open writer; success is returned only after the directory of the published name was flushed; the temp file never survives (unless its own removal was made to fail); a visible final file is complete and byte-identical to what was written; level-0 files are unlinked only when no publish is still waiting for its directory flush.",
+            "POSIX durability model; fault-dependent counterexamples are confirmed by concrete re-execution, not natively.", "DESIGN.md 5 (C11), 7 (H4)"),
+    "C03": ("The real DB.sync, file.ReplicaClient.WriteLTXFile, WriteTXIDFile and the follow loop are killed immediately before each of their file-system mutating operations: in the tree left behind every name that parses as an LTX file and the TXID sidecar is a complete file, files acknowledged earlier are still present, the sidecar holds the old or the new value; after a restart (new DB object, real Open with removeTmpFiles, real Pos / file-backend listing) stale temp files are gone and the position is the highest complete level-0 file; the follower resumes from its sidecar.",
+            "Kill = stop before a file-system operation of the litestream process; WAL-cursor resumption after the restart is C04.", "DESIGN.md 5 (C03)"),
 }
 na_reasons = {
     "C12": "quantifies over goroutine interleavings and the Go memory model; a sequential SSA symbolic interpreter cannot soundly decide races or deadlocks and no concurrency-aware engine for Go exists in this image (DESIGN.md 6)",
@@ -323,6 +329,44 @@ props["C14"] = {
     ],
     "stubs": ["symsql handler", "file-system model", "WAL-copy stand-ins (source rewrite)", "prometheus / slog no-op"],
     "outside": ["SQLite's integrity and journal-mode behaviour", "checkpointV3 / checkIntegrity (they run on the restored copy, never on the source)", "snapshot reads (C02)"],
+}
+
+props["C11"] = {
+    "level": "model_checking", "validate": 4,
+    "runs": [
+        run("root", "VxC11Sync", {}, {}),
+        run("root", "VxC11Sidecar", {}, {}),
+        run("root", "VxC11Baseline", {}, {}),
+        run("file", "VxC11FileWrite", {}, {}),
+        run("file", "VxC11Retention", {}, {}),
+        run("root", "VxC10Restore", {}, {}, note="restore output: renamed only after flush and close (shared with C10)"),
+    ],
+    "unreached_ok": ["existing-output-refused-and-untouched", "damaged-replica-is-an-error", "damaged-replica-leaves-no-output", "success-means-correct-database", "temp-file-gone", "integrity-check-ran", "output-on-error-is-complete"],
+    "assumptions": [
+        "POSIX model: a file's content is durable after fsync on a descriptor of that file; a directory entry (rename, create, unlink) is durable after fsync on the directory; rename is atomic",
+        "ghost state: a write or truncate makes a file dirty until its next fsync; rename/create/unlink make the directory dirty until the directory's next fsync; the rules checked are: never rename a dirty or still-open file into a final name, never return success while the directory of a published name is dirty, never unlink a superseded file while a publish is not yet durable",
+        "every file-system call may fail (fault decision per call, writes may be partial); counterexamples that need an injected fault are confirmed by concrete re-execution of the real SSA",
+    ],
+    "stubs": ["file-system model (symfs) with dirty bits", "ReplicaClient mock where the replica side is not the subject", "codec model as in C06"],
+    "outside": ["that fsync reaches stable storage", "Hydrator.saveMeta (VFS build tag, see C18)", "retention racing a concurrent compaction (C12)", "cloud backends (their durability is the provider's)"],
+}
+
+props["C03"] = {
+    "level": "model_checking", "validate": 4,
+    "runs": [
+        run("root", "VxC03Sync", {}, {}),
+        run("root", "VxC03Sidecar", {}, {}),
+        run("file", "VxC03FileWrite", {}, {}),
+        run("root", "VxC16Follow", {}, {}, note="follower killed at every file-system operation (shared with C16)"),
+    ],
+    "unreached_ok": ["sidecar-always-parses", "sidecar-complete-file", "sidecar-never-ahead-of-database", "sidecar-never-regresses", "follow-returns-nil-on-cancel", "caught-up", "no-temp-left", "resume-connects-to-sidecar", "resume-converges"],
+    "assumptions": [
+        "a process kill stops the process immediately before a file-system mutating operation (create, write, truncate, rename, unlink, mkdir, chtimes); data already written stays (no power loss: that is C11); nothing else of the process survives",
+        "ghost 'complete': a file is complete when every handle that wrote it has been closed after its last write",
+        "resumption correctness of the WAL cursor after the restart is C04's fresh-process scenario, not decided here",
+    ],
+    "stubs": ["file-system model (symfs) with kill points", "ReplicaClient mock", "codec model as in C06"],
+    "outside": ["kill points inside SQLite or cgo", "kills during compaction and retention beyond the file backend's WriteLTXFile", "power loss (C11)"],
 }
 
 rewrites = [
